@@ -355,8 +355,32 @@ func verifyFuncMode(w *World, ss *SpecSet, fn *ssa.Function, sweep, finder bool)
 		t := e.value(p)
 		e.inputs = append(e.inputs, modelVar{Name: p.Name(), Term: t, Ty: p.Type(), NDecl: len(e.decls)})
 	}
+	// walker contract: listener callbacks receive a non-nil context of their own type
+	if fn.Signature.Recv() != nil && len(fn.Params) == 2 && (strings.HasPrefix(fn.Name(), "Enter") || strings.HasPrefix(fn.Name(), "Exit")) {
+		p := fn.Params[1]
+		if db, ks := e.candKinds(p, e.value(p)); db != nil && len(ks) == 1 && strings.TrimSuffix(ks[0], "Context") == strings.TrimPrefix(strings.TrimPrefix(fn.Name(), "Enter"), "Exit") {
+			e.assume(fmt.Sprintf("(not (= %s 0))", e.value(p)))
+			e.assumps["tree walker contract: EnterX / ExitX are called with the non-nil XContext of a node of an error-free parse tree"] = true
+		}
+	}
 	fr.entryMem = map[string]Term{}
 	e.initMem = fr.entryMem
+	var invs []Clause
+	if fn.Pkg != nil {
+		invs = ss.Invariants[fn.Pkg.Pkg.Path()]
+	}
+	if len(invs) > 0 && (ct == nil || !ct.Establishes) {
+		env := e.fnEnv(fr, e.mem)
+		env.oldMem = nil
+		for i, iv := range invs {
+			g, err := e.specBool(env, iv.E)
+			if err != nil {
+				e.contractError(fr, fmt.Sprintf("invariant %d: %v", i+1, err))
+				continue
+			}
+			e.assume(g)
+		}
+	}
 	if ct != nil {
 		env := e.fnEnv(fr, e.mem)
 		env.oldMem = nil
@@ -408,6 +432,32 @@ func verifyFuncMode(w *World, ss *SpecSet, fn *ssa.Function, sweep, finder bool)
 	}
 	e.mem = e.mergeMem(mems, ats)
 	fr.cur = e.define("at_exit", "Bool", mkOr(ats))
+	// package invariants hold again at every return
+	if len(invs) > 0 {
+		order := make([]int, len(fr.returns))
+		for i := range order {
+			order[i] = i
+		}
+		sort.SliceStable(order, func(a, b int) bool { return fr.returns[order[a]].pos < fr.returns[order[b]].pos })
+		exitCur, exitMem := fr.cur, e.mem
+		for rank, ri := range order {
+			r := fr.returns[ri]
+			fr.cur = r.at
+			e.mem = r.mem
+			envR := e.fnEnv(fr, r.mem)
+			for i, iv := range invs {
+				g, err := e.specBool(envR, iv.E)
+				if err != nil {
+					continue
+				}
+				cls := fmt.Sprintf("inv.r%d", rank+1)
+				e.counts[cls] = i
+				o := e.oblige(cls, g, r.pos, "invariant: "+iv.Text)
+				o.Class = "inv"
+			}
+		}
+		fr.cur, e.mem = exitCur, exitMem
+	}
 	if ct == nil {
 		return res
 	}
